@@ -38,6 +38,28 @@ pub fn run(ctx: &Ctx) {
         let back = Cmd::new(&["hex", "decode"]).stdin(&r.stdout).run(Build::Release);
         if !back.ok() || back.stdout != data { ctx.violation(format!("{P}:roundtrip:{shape}:differs"), format!("decode(encode(x)) != x: {}", back.describe()), replay) }
     });
+    // content classes: runs of one byte, a single line feed followed / preceded by long runs without one (stdout is line
+    // buffered), CR LF pairs, and lengths around the 1 KiB, 8 KiB and 64 KiB buffer sizes
+    let mut cc: Vec<(String, Vec<u8>)> = Vec::new();
+    for len in [1usize, 2, 1023, 1024, 1025, 2047, 2048, 2049, 4096, 8191, 8192, 8193, 65535, 65536, 65537, 200_000] {
+        for (n, b) in [("zeros", 0u8), ("linefeeds", 0x0a), ("ff", 0xff), ("letters", 0x41)] { cc.push((format!("all-{n}"), vec![b; len])); }
+        let mut v = vec![0x41u8; len]; v[0] = 0x0a; cc.push(("linefeed-first".into(), v.clone())); let l = v.len(); v[0] = 0x41; v[l - 1] = 0x0a; cc.push(("linefeed-last".into(), v.clone()));
+        v[l / 2] = 0x0a; v[l - 1] = 0x41; cc.push(("linefeed-middle".into(), v.clone())); cc.push(("crlf-pairs".into(), (0..len).map(|i| if i % 2 == 0 { 0x0d } else { 0x0a }).collect()));
+        cc.push(("cyclic".into(), buffer(len)));
+    }
+    ctx.sweep("content-classes", "runs of 00 / 0a / ff / 'A', one line feed first / last / in the middle of a long run, CR LF pairs, cyclic bytes, at lengths 1, 2, 1023..1025, 2047..2049, 4096, 8191..8193, 65535..65537, 200000: decode(encode(x)) = x", cc.len() as u64, |i| {
+        let (class, data) = &cc[i as usize];
+        let enc = Cmd::new(&["hex", "encode"]).stdin(data).run(Build::Release);
+        let shape = format!("{class},len-class={}", match data.len() { 0..=1023 => "<1Ki", 1024..=8191 => "1Ki-8Ki", 8192..=65535 => "8Ki-64Ki", _ => ">=64Ki" });
+        ctx.sample("content-classes", || serde_json::json!({"class": class, "len": data.len()}));
+        let replay = serde_json::json!({"sweep": "content-classes", "index": i, "entry": "CLI", "command": format!("hdwallet hex encode | hdwallet hex decode  on {} bytes of class {class}", data.len())});
+        if enc.crashed() { ctx.eval(format!("{shape}:{}", enc.crash_kind())); ctx.panic_violation(format!("{P}:encode:{class}:{}", enc.crash_kind()), enc.describe(), replay); return; }
+        ctx.eval(format!("{shape}:roundtrip"));
+        if !enc.ok() || enc.stdout != format!("0x{}\n", hex(data)).into_bytes() { ctx.violation(format!("{P}:encode:{class}:wrong-text"), format!("encode of {} bytes printed {} bytes of text", data.len(), enc.stdout.len()), replay); return; }
+        let dec = Cmd::new(&["hex", "decode"]).stdin(&enc.stdout).run(Build::Release);
+        if dec.crashed() { ctx.panic_violation(format!("{P}:decode:{class}:{}", dec.crash_kind()), dec.describe(), replay) }
+        else if !dec.ok() || dec.stdout != *data { ctx.violation(format!("{P}:roundtrip:{class}:differs"), format!("decode(encode(x)) returned {} bytes for {} bytes of input (first difference at {:?})", dec.stdout.len(), data.len(), dec.stdout.iter().zip(data.iter()).position(|(a, b)| a != b)), replay) }
+    });
     // layout sweep on a 16-byte value
     let val: Vec<u8> = (0..16u8).map(|i| i.wrapping_mul(0x1f) ^ 0xa5).collect(); let lower = hex(&val);
     let mixed: String = lower.chars().enumerate().map(|(i, c)| if i % 3 == 0 { c.to_ascii_uppercase() } else { c }).collect();
@@ -51,7 +73,7 @@ pub fn run(ctx: &Ctx) {
     // malformed input
     let mut bad: Vec<(String, Vec<u8>)> = Vec::new();
     for n in (1..=31usize).step_by(2) { bad.push(("odd-digits".into(), lower[..n].as_bytes().to_vec())); bad.push(("odd-digits-0x".into(), format!("0x{}", &lower[..n]).into_bytes())); }
-    for d in ["g", "x", "-", "\u{200b}", "\u{e9}", "0x", ".", "G", "\u{ff11}"] { for pos in 0..=lower.len() { let mut s = format!("0x{lower}"); s.insert_str(2 + pos, d); bad.push((format!("non-hex-{}", if d.is_ascii() { "ascii" } else { "non-ascii" }), s.into_bytes())); } }
+    for d in ["g", "x", "-", "+", "\u{200b}", "\u{e9}", "0x", ".", "G", "\u{ff11}", ":", "_"] { for pos in 0..=lower.len() { let mut s = format!("0x{lower}"); s.insert_str(2 + pos, d); bad.push((format!("non-hex-{}", if d.is_ascii() { "ascii" } else { "non-ascii" }), s.into_bytes())); } }
     bad.push(("invalid-utf8".into(), vec![0x30, 0x78, 0xff, 0xfe])); bad.push(("nul".into(), b"0x00\x0000".to_vec())); bad.push(("empty".into(), vec![])); bad.push(("only-0x".into(), b"0x".to_vec())); bad.push(("only-ws".into(), b" \n".to_vec())); bad.push(("x0".into(), b"x0aa".to_vec())); bad.push(("0x-twice".into(), b"0x0xaa".to_vec())); bad.push(("split-prefix".into(), b"0 xaa".to_vec()));
     ctx.sweep("decode-malformed", "odd digit counts 1..31, 9 non-hex insertions at every index, invalid UTF-8, NUL, empty, doubled and split prefixes", bad.len() as u64, |i| { let (s, t) = &bad[i as usize]; check_decode(ctx, "decode-malformed", i, s, t, i % 4 == 0); });
 }
